@@ -435,6 +435,7 @@ func specC14() *propertySpec {
 			{"C14-R6", "no-callback-under-lock: no dynamic call of a user-supplied function and no call re-acquiring T.mu while T.mu is held", ruleC14R6},
 			{"C14-R7", "lock-balance: every function that acquires T.mu releases it on every return path (explicitly, or by a deferred unlock of the same mode): a lock left held blocks every later Log/Failed/Cleanup call", ruleC14R7},
 			{"C14-R8", "late-signals-reach-the-verdict: a non-fatal failure signalled from another goroutine up to the end of the cleanup phase (goroutines released by context cancellation, joined by a cleanup) is seen: in every bracket the flag is consulted after the cleanups (shared with C02-R2)", ruleC02R2},
+			{"C14-R9", "one-context-for-all-goroutines-also-while-cleanup-starts: cleanup sets the cleaning flag before it cancels and clears the context (and resets it deferred), so that no goroutine still calling Context() in between creates a second, never cancelled one (shared with C10-R2)", ruleC10R2},
 		},
 	}
 }
